@@ -214,6 +214,73 @@ fn fields_out_of_order(e: &E) -> bool {
     }
 }
 
+/// Large outputs through the real binaries (`fml run` and compile + `fml execute`): stdout is a
+/// line-buffered 1 KiB writer, so texts with a newline followed by more than a kilobyte, and
+/// texts of many kilobytes, are the interesting ones.
+fn large_outputs(ctx: &mut Ctx) -> Vec<Violation> {
+    let mut out = vec![];
+    let rel = crate::cli::fml_release();
+    let dbg = crate::cli::fml_debug();
+    let mut sc = crate::cli::Scratch::new("C15", "w");
+    let sizes = [100usize, 341, 342, 343, 400, 1000, 5000];
+    let formats = ["~", "~\\n", "v:\\n~", "a\\nb\\n~ tail", "~\\n~", "é\\n~\\t|", "x ~ y\\n~ z"];
+    let mut k = 0;
+    for n in sizes.iter() {
+        for f in formats.iter() {
+            k += 1;
+            if !ctx.shard_mine(k) {
+                continue;
+            }
+            let places = f.matches('~').count();
+            let mut args = vec![E::Array(bx(E::Int(*n as i32)), bx(E::Int(7)))];
+            if places == 2 {
+                args.push(E::Object(None, vec![Member::Field("big".into(), E::Array(bx(E::Int(*n as i32 / 2)), bx(E::Bool(true))))]));
+            }
+            let prog: Prog = vec![print(f, args), print("\\nend\\n", vec![])];
+            let r = refsem::run(&prog, 10_000_000);
+            if r.outcome != Outcome::Ok {
+                continue;
+            }
+            let src = render::text(&prog, render::Style::Minimal);
+            let fsrc = sc.file("big.fml");
+            std::fs::write(&fsrc, &src).unwrap();
+            let fbc = sc.file("big.bc");
+            let image = fmlrun::pipeline(&src).map(|p| p.bytes).unwrap_or_default();
+            std::fs::write(&fbc, &image).unwrap();
+            for (how, bin, args) in vec![
+                ("fml run (release)", &rel, vec!["run", fsrc.to_str().unwrap()]),
+                ("fml run (debug)", &dbg, vec!["run", fsrc.to_str().unwrap()]),
+                ("fml execute (release)", &rel, vec!["execute", fbc.to_str().unwrap()]),
+            ] {
+                ctx.eval();
+                ctx.label("large-output-through-binary");
+                match crate::cli::run_fml(bin, &args) {
+                    Err(e) => out.push(Violation::new("harness-error", format!("cannot run fml: {}", e), json!({}))),
+                    Ok(o) => {
+                        if o.out_str() != r.out || !o.status.success() {
+                            let v = Violation::new(
+                                "wrong-print-output",
+                                format!("{}: array of {} elements through format {:?}: {} bytes on stdout (status {:?}), expected {} bytes; first difference at {:?}", how, n, f, o.stdout.len(), o.status, r.out.len(), crate::props::c03::first_diff(&o.stdout, r.out.as_bytes())),
+                                json!({"source": src, "level": "cli"}),
+                            )
+                            .with("level", "cli");
+                            if let Err(v) = ctx.settle(v) {
+                                out.push(v);
+                            }
+                        } else {
+                            ctx.nontrivial(format!("cli|{}|{}|{}", how, n, f).as_bytes());
+                        }
+                    }
+                }
+            }
+            if out.len() > 6 {
+                return out;
+            }
+        }
+    }
+    out
+}
+
 impl Property for C15 {
     fn id(&self) -> &'static str {
         "C15"
@@ -222,13 +289,13 @@ impl Property for C15 {
         true
     }
     fn rule(&self) -> String {
-        "cases: (exhaustive, bytecode level) every format string of length <= 5 (thorough: 6) over {~, \\, n, \", a, LF, é, t, r} (the statement's seven symbols plus t and r, so that all six escapes occur) in which escape scanning does not end inside an escape, each with 0-3 integer arguments, built with the independent writer and run in the VM; (exhaustive, source level) the subset the lexer admits, through the real parser and compiler; (random) nested arrays/objects to depth 5 incl. values that reach the same array/object twice (shared, acyclic), empty array/object, parents of every kind, field names whose declaration order differs from byte-wise order, printed through several placeholder positions. oracle: own formatter (escapes, positional ~, mismatch fails without output, result null) and own renderer. non-trivial: a format with >=1 placeholder and >=1 escape, or a count mismatch, or a value of depth >=2 with >=2 fields out of order; distinct by (level, format, args) / source".into()
+        "cases: (exhaustive, bytecode level) every format string of length <= 5 (thorough: 6) over {~, \\, n, \", a, LF, é, t, r} (the statement's seven symbols plus t and r, so that all six escapes occur) in which escape scanning does not end inside an escape, each with 0-3 integer arguments, built with the independent writer and run in the VM; (exhaustive, source level) the subset the lexer admits, through the real parser and compiler; (random) nested arrays/objects to depth 5 incl. values that reach the same array/object twice (shared, acyclic), empty array/object, parents of every kind, field names whose declaration order differs from byte-wise order, printed through several placeholder positions. (real binaries) arrays of 100..5000 elements through 7 formats (newline followed by more than 1 KiB, several KiB without newline) via `fml run` release/debug and `fml execute`. oracle: own formatter (escapes, positional ~, mismatch fails without output, result null) and own renderer. non-trivial: a format with >=1 placeholder and >=1 escape, or a count mismatch, or a value of depth >=2 with >=2 fields out of order; distinct by (level, format, args) / source".into()
     }
     fn assumptions(&self) -> Vec<String> {
         vec!["a format ending in a lone backslash has no stated meaning and is left out (count reported)".into()]
     }
     fn random_cases(&self, tier: Tier) -> u64 {
-        tier.pick(30_000, 1_500_000)
+        tier.pick(200_000, 4_000_000)
     }
     fn exhaustive_note(&self, tier: Tier) -> Option<String> {
         let l = tier.pick(5, 6);
@@ -267,6 +334,7 @@ impl Property for C15 {
                 }
             }
         }
+        out.extend(large_outputs(ctx));
         out
     }
     fn judge_tape(&self, tape: &[u8], ctx: &mut Ctx) -> Judged {
